@@ -148,9 +148,7 @@ theorem sound_aux (hw : w.WF) :
           | some j => simp [hi] at h; subst h; simp [conf, enumIdx_lt hi]
       | lit vs =>
         simp only [stLF] at h
-        split at h
-        · rename_i hm; cases h; simpa [conf] using hm
-        · cases h
+        simpa [conf] using litStruct_litConf w h
       | coll k t' =>
         have hsz : sizeOf t' ≤ m := by simp at ht; omega
         rw [stLF_coll] at h
